@@ -17,8 +17,9 @@ class MarkdownCommand:
     def command(self):
         def parse_block_command(block, m, state):
             text = m.group(f'{self.name}_command_content').strip()
-            if self.parameter and text:
-                parameter_value = text.split()[0]
+            if self.parameter:
+                # a command that takes a parameter always carries it, also when it is written without one ('@param' on its own)
+                parameter_value = text.split()[0] if text else ""
                 text_value = text[len(parameter_value) + 1:]
                 state.append_token({'type': self.name, 'text': text_value, 'attrs': {self.parameter: parameter_value}})
             else:
